@@ -1,0 +1,13 @@
+//go:build verif
+
+package client
+
+// Verification hook (build tag verif): a test can install verifHook to observe, or to park, the
+// goroutine that reaches a named point. Without the tag the calls compile to nothing.
+var verifHook func(point string)
+
+func verifPoint(point string) {
+	if h := verifHook; h != nil {
+		h(point)
+	}
+}
